@@ -52,7 +52,12 @@ func TestVerifC07(t *testing.T) {
 		o := world.DefaultOpts(r)
 		g := world.Generate(r, worldHosts(s, r.Intn), o)
 		feeds, feedNames := setFeeds(g, r)
-		s.SetHandler(wk.Handler(g.World))
+		if n%2 == 1 {
+			// responses take 1..4 ms in every other session, so that loads are really in flight when the next key arrives
+			s.SetHandler(withLatency(wk.Handler(g.World), c.Rand(n, 5), 4))
+		} else {
+			s.SetHandler(wk.Handler(g.World))
+		}
 		s.ResetLog() // the byte log is only needed per world; keeping it would grow without bound
 		entry := g.Entries[r.Intn(len(g.Entries))]
 		viaFeed := r.Intn(5) == 0
@@ -110,6 +115,7 @@ func TestVerifC07(t *testing.T) {
 				trail = append(trail, fmt.Sprintf("resize %dx%d", w, h))
 			}
 			// sometimes the media hook is slow and more keys arrive while the link is still being opened
+			pipelined := false
 			slowHook := (tk.desc == "media" || strings.HasPrefix(tk.desc, "number")) && r.Intn(4) > 0
 			if slowHook {
 				os.Setenv("VERIF_HOOK_SLEEP_MS", "800")
@@ -151,6 +157,18 @@ func TestVerifC07(t *testing.T) {
 					}
 					c.Count("keys_while_opening", 1)
 				}
+				// a move may be followed at once by a key that leaves the page: the page's loads then complete in the background
+				// and must still arrive (they are needed when the user comes back)
+				if (b == 'j' || b == 'k') && len(tk.keys) == 1 && ti+1 < len(tokens) && r.Intn(2) == 0 {
+					switch tokens[ti+1].desc {
+					case "space", "c", "r", "a", "h", "l":
+						pipelined = true
+					}
+				}
+				if pipelined {
+					c.Count("moves_followed_at_once_by_a_page_change", 1)
+					break
+				}
 				if !x.settle(30 * time.Second) {
 					fail("wedged", "the interface did not settle after key %#x of %s (mode %s)", b, tk.desc, modeName(x.snap().mode))
 					ok = false
@@ -165,6 +183,9 @@ func TestVerifC07(t *testing.T) {
 			}
 			if !ok {
 				break
+			}
+			if pipelined {
+				continue // compared after the next key has been handled and everything has settled
 			}
 			if d := compare(x.snap(), m); d != "" {
 				sig := "mismatch"
